@@ -204,7 +204,7 @@ CHECKS = {
                 "earlier published value are unchanged after every later load; (4) a refused document publishes nothing; (5) live "
                 "variant (every k-th case so that at most ~400 Loaders are created per process): the documents are fed to the unmarshaller of a running Loader (apply "
                 "barrier: same document pushed twice more) and Loader.Get for 7 probe addresses equals that of a stack freshly "
-                "started with the last accepted document. Non-trivial: a later valid document omits or shrinks something.",
+                "started with the last accepted document; (6) TestC16EnumWatcher: the real fsnotify watcher around a YAML loader, the file rewritten with a smaller, an invalid and a third document (waits for the watcher's 1 s tick, bounded by the watchdog). Non-trivial: a later valid document omits or shrinks something.",
         "assumptions": COMMON_ASSUME + ["gopkg.in/yaml.v3 and encoding/json render the harness' own config structs faithfully"],
     },
     "C07": {
